@@ -10,6 +10,11 @@
  *        fail:K:ERRNO   counted op K is not performed, returns -1 / errno
  *        short:K        counted op K, if a write, writes only half its bytes
  *        kill:K         SIGKILL to the whole process immediately before op K
+ *        wfail:K:ERRNO  persistent write failure: counted op K and every later counted write
+ *                       (write/pwrite/writev) returns -1 / errno (a full or withdrawn device)
+ *     With BLSHIM_STDIO=1 every write to descriptor 1 or 2 (a line of the subject's output) is a
+ *     counted operation of kind "out" too, so that kill/sig directives can be placed between two
+ *     lines of output; fail/short/wfail never apply to them.
  *        sig:K:NUM      signal NUM delivered (to the thread about to issue op K, so that the
  *                       handler has run before the operation starts) immediately before op K
  *
@@ -44,7 +49,7 @@
 #define MAX_FD 4096
 #define TRACE_FD 1000
 
-enum { D_FAIL = 1, D_SHORT, D_KILL, D_SIG };
+enum { D_FAIL = 1, D_SHORT, D_KILL, D_SIG, D_WFAIL };
 struct directive { int type; long k; int arg; };
 
 static char roots[MAX_ROOTS][PATH_MAX];
@@ -52,11 +57,14 @@ static size_t root_len[MAX_ROOTS];
 static int n_roots;
 static struct directive plan[MAX_PLAN];
 static int n_plan;
+static long wfail_from; /* 0 = none */
+static int wfail_errno;
 static int trace_fd = -1;
 static long op_counter;  /* counted operations */
 static long seq_counter; /* all traced calls */
 static unsigned char tracked[MAX_FD];
 static int initialised;
+static int count_stdio;
 
 /* ---------------------------------------------------------------- utils */
 
@@ -96,6 +104,7 @@ static int errno_by_name(const char *s, size_t n)
         {"EPERM", EPERM}, {"ENOENT", ENOENT}, {"EMFILE", EMFILE}, {"EROFS", EROFS},
         {"EDQUOT", EDQUOT}, {"EINTR", EINTR}, {"EBUSY", EBUSY}, {"ENOMEM", ENOMEM},
         {"EEXIST", EEXIST}, {"EISDIR", EISDIR}, {"ENOTDIR", ENOTDIR}, {"EFBIG", EFBIG},
+        {"EINVAL", EINVAL}, {"ENOSYS", ENOSYS}, {"EOPNOTSUPP", EOPNOTSUPP}, {"EAGAIN", EAGAIN},
     };
     for (size_t i = 0; i < sizeof tab / sizeof tab[0]; i++)
         if (s_len(tab[i].n) == n && !strncmp(tab[i].n, s, n)) return tab[i].v;
@@ -178,18 +187,22 @@ static void shim_init(void)
         else if (!strncmp(p, "short:", 6)) { d.type = D_SHORT; p += 6; }
         else if (!strncmp(p, "kill:", 5)) { d.type = D_KILL; p += 5; }
         else if (!strncmp(p, "sig:", 4)) { d.type = D_SIG; p += 4; }
+        else if (!strncmp(p, "wfail:", 6)) { d.type = D_WFAIL; p += 6; }
         else break;
         d.k = parse_l(&p);
         if (*p == ':') {
             p++;
             const char *e = p; while (*e && *e != ';') e++;
-            if (d.type == D_FAIL) d.arg = errno_by_name(p, (size_t)(e - p));
+            if (d.type == D_FAIL || d.type == D_WFAIL) d.arg = errno_by_name(p, (size_t)(e - p));
             else { const char *q = p; d.arg = (int)parse_l(&q); }
             p = e;
         }
-        plan[n_plan++] = d;
+        if (d.type == D_WFAIL) { wfail_from = d.k; wfail_errno = d.arg ? d.arg : EIO; }
+        else plan[n_plan++] = d;
         while (*p == ';') p++;
     }
+    const char *cs = getenv("BLSHIM_STDIO");
+    count_stdio = cs && cs[0] == '1';
     const char *t = getenv("BLSHIM_TRACE");
     if (t && *t) {
         long fd = syscall(SYS_openat, AT_FDCWD, t, O_WRONLY | O_CREAT | O_APPEND | O_CLOEXEC, 0644);
@@ -342,8 +355,15 @@ ssize_t pread64(int fd, void *buf, size_t n, off64_t off)
 ssize_t write(int fd, const void *buf, size_t n)
 {
     REAL(write);
+    if (count_stdio && (fd == 1 || fd == 2) && n > 0) {
+        int fe0, sw0; long k0 = before_op(1, &fe0, &sw0);
+        ssize_t r0 = real_write(fd, buf, n); int e0 = errno;
+        trace_line(k0, "out", fd, (long)n, (long)r0, r0 < 0 ? e0 : 0, "", fd == 1 ? "<stdout>" : "<stderr>", NULL);
+        errno = e0; return r0;
+    }
     if (!fd_tracked(fd)) return real_write(fd, buf, n);
     int fe, sw; long k = before_op(1, &fe, &sw);
+    if (!fe && wfail_from && k >= wfail_from) fe = wfail_errno;
     if (fe) { errno = fe; trace_line(k, "write", fd, (long)n, -1, fe, "fail", "", NULL); return -1; }
     size_t m = n;
     if (sw && n > 1) m = n / 2;
@@ -357,6 +377,7 @@ ssize_t pwrite64(int fd, const void *buf, size_t n, off64_t off)
     REAL(pwrite64);
     if (!fd_tracked(fd)) return real_pwrite64(fd, buf, n, off);
     int fe, sw; long k = before_op(1, &fe, &sw);
+    if (!fe && wfail_from && k >= wfail_from) fe = wfail_errno;
     if (fe) { errno = fe; trace_line(k, "write", fd, (long)n, -1, fe, "fail", "", NULL); return -1; }
     ssize_t r = real_pwrite64(fd, buf, n, off); int e = errno;
     trace_line(k, "write", fd, (long)n, (long)r, r < 0 ? e : 0, "", "", NULL);
@@ -369,6 +390,7 @@ ssize_t writev(int fd, const struct iovec *iov, int cnt)
     if (!fd_tracked(fd)) return real_writev(fd, iov, cnt);
     int fe, sw; long k = before_op(1, &fe, &sw);
     long total = 0; for (int i = 0; i < cnt; i++) total += (long)iov[i].iov_len;
+    if (!fe && wfail_from && k >= wfail_from) fe = wfail_errno;
     if (fe) { errno = fe; trace_line(k, "write", fd, total, -1, fe, "fail", "", NULL); return -1; }
     ssize_t r = real_writev(fd, iov, cnt); int e = errno;
     trace_line(k, "write", fd, total, (long)r, r < 0 ? e : 0, "", "", NULL);
